@@ -443,6 +443,7 @@ func propC01() *PropSpec {
 			js = append(js, jobsN("js", "VerifJSObjectMembers", []int{0, 1}, "x={M1[,M2]}: property / method under 6 modifier forms x 14 name forms: same kind and name")...)
 			js = append(js, jobsN("js", "VerifJSCommaGroup", []int{0}, "(a,LAST) OP d as statement and as return value: 13 forms of LAST x 12 operators: same expression tree whether or not the parentheses are dissolved")...)
 			js = append(js, jobsN("js", "VerifJSParens", []int{0}, "x=((a OP1 b) OP2 c), x=(a OP1 (b OP2 c)) and conditional forms for all pairs of 18 binary operators: same expression tree (up to associativity of && || ??)")...)
+			js = append(js, jobsN("js", "VerifJSGroupPostfix", []int{0}, "x=(INNER)POST for 33 inner forms x 10 postfix forms: parentheses dropped only where the expression tree stays the same")...)
 			js = append(js, jobsN("js", "VerifJSBoolCoerce", []int{0}, "!!(E), E?true:false, E?Y:false ... with E = A op B over comparisons, negations and plain values: coercion only dropped for boolean E")...)
 			js = append(js, jobsN("js", "VerifJSDanglingElse", []int{0}, "9 nested if / else-if shapes x 3 body sets (blocks with lexical declarations): every else stays with its if")...)
 			return js
